@@ -135,16 +135,20 @@ CLAIMED = {
         design='6 (C02)'),
     'C03': dict(
         text='Coq theorems (Props/C03.v) over an executable model of pdu()/parse_header/from_pdu for all 15 classes (Model/Pdu.v): command_length '
-             'equals the number of bytes produced for every class, field assignment and default alphabet; the header reads back exactly; and exact '
-             'round trips, for all field values in range, of the header-only classes, submit_sm_resp/deliver_sm_resp, the three binds and the three '
-             'bind responses (with and without sc_interface_version). For submit_sm/deliver_sm the body round trip is decided by the model tie plus a '
-             'direct round-trip oracle, not by a theorem yet: the model is compared with the implementation on generated messages over the whole '
-             'field space (bytes and exception classes of pdu(), fields and exception classes of from_pdu, also on truncated and corrupted PDUs).',
-        note='Trusted: Coq kernel, translator (enums, TLV tables), harness + pdugen.py. PARTIAL: the submit_sm/deliver_sm body round trip is not yet a '
-             'theorem. Domain exclusion: a GSM alphabet named explicitly under a different session default has no data_coding of its own in SMPP 3.4 '
-             '(0 = SMSC default) and is outside the field space. Proved for the code after fixes acc3db3 (explicit default alphabet normalises), '
-             '77053b5, d468104. No axioms.',
-        technique='Coq proof: positional parser lemmas (skipn cursor) composed field by field; differential correspondence on generated PDUs incl. malformed stream',
+             'equals the number of bytes produced for every class, field assignment and default alphabet; the header reads back exactly; exact round '
+             'trips, for all field values in range, of the header-only classes, submit_sm_resp/deliver_sm_resp, the three binds and the three bind '
+             'responses; and for submit_sm/deliver_sm: for every assignment of the mandatory fields, any text the chosen alphabet carries (GSM, IA5, '
+             'Latin-1, UCS2, automatic selection with UCS2 fallback) of any length, ANY list of optional parameters in any order and any default '
+             'alphabet, decode(encode(m)) is m up to exactly the documented normalisations (sm_back: message_payload beyond 254 octets, explicit '
+             'default alphabet -> automatic, unset flags absent; the two time fields as the time parser reads the strings written - C17). The proof '
+             'goes through the specification layout (C04) and a parser theorem for any optional-parameter list. Tied to the code by comparing '
+             'model and implementation on generated messages over the whole field space (bytes and exception classes of pdu(), fields and exception '
+             'classes of from_pdu, also on truncated and corrupted PDUs) plus a direct round-trip oracle.',
+        note='Trusted: Coq kernel, translator (enums, TLV tables), harness + pdugen.py. Outside the submit_sm theorem: messages with the UDHI bit '
+             '(C08/C09), non-strict error handlers, stdlib codecs, the packed GSM codec as a default (C11). Domain exclusion: a GSM alphabet named '
+             'explicitly under a different session default has no data_coding of its own in SMPP 3.4. Proved for the code after fixes acc3db3, '
+             '77053b5, d468104, 5ac7354. No axioms.',
+        technique='Coq proof: positional parser lemmas (skipn cursor), induction over the optional-parameter list, refinement through the specification layout; differential correspondence on generated PDUs incl. malformed stream',
         design='6 (C03)'),
     'C04': dict(
         text='Coq theorems (Props/C04.v) relating the executable model of pdu()/from_pdu to Spec/Smpp34.v, a transcription of SMPP 3.4 sections 3.2, '
@@ -153,9 +157,12 @@ CLAIMED = {
              'C-octet termination, sm_length, message_payload and optional parameters) for whatever the encoder produces, and that the data_coding sent '
              'is one under which the text bytes decode to the text supplied (GSM, IA5, Latin-1, UCS2; from the C10 round-trip theorem). Decoding: '
              'specification PDUs of the responses (body present or omitted), bind responses (with/without sc_interface_version, body omitted) and binds '
-             'decode to the values they were built from; 8- and 16-bit concatenation headers decode to (ref, total, seq). For foreign submit_sm/deliver_sm '
-             'the decision is the oracle + model tie: PDUs built by an independent encoder (harness/smppref.py) are fed to the real parse_header/from_pdu '
-             'and to the model; the real pdu() bytes are compared octet by octet with the independent encoder.',
+             'decode to the values they were built from; 8- and 16-bit concatenation headers decode to (ref, total, seq); and a specification '
+             'submit_sm/deliver_sm with mandatory fields of any admissible value, ANY number of optional parameters in ANY order (message_payload '
+             'anywhere), any known data_coding and default alphabet decodes to exactly the values it was built from (C04_sm_decode, with the '
+             'meaning of each parameter given by tlvs_meaning; the loop theorem C04_tlv_loop by induction over the parameter list). PDUs built by an '
+             'independent encoder (harness/smppref.py) are fed to the real parse_header/from_pdu and to the model; the real pdu() bytes are '
+             'compared octet by octet with the independent encoder.',
         note='Trusted: Coq kernel, Spec/Smpp34.v and smppref.py as transcriptions of the standard, translator, harness. PARTIAL: no theorem yet for the '
              'decoder on an arbitrary specification submit_sm/deliver_sm body (TLV permutations); that part rests on the correspondence runs. Proved '
              'for the code after fixes 7dca4fc, d468104, 0c64b68 (bind response without body), 5ac7354 (final zero octet of Octet String TLVs). No axioms.',
